@@ -23,8 +23,10 @@ CHECKS = {
             "no-credit lemmas; differential correspondence over 8 verification sites",
             CLIENT + "Theorems: verify_role accepts iff >= threshold distinct authorised keys present in the key table have a "
             "valid signature, for all tables/lists/thresholds; top-level sites of a successful cycle verified under the final "
-            "root (C02_final_root_only). Partial: the per-site statement for delegated roles is checked by correspondence "
-            "(signature lists of all 8 kinds at depth 1 and 2), not yet proved for the recursive loader.",
+            "root (C02_final_root_only); every delegated role loaded by a successful cycle, at any depth, verified under the "
+            "key table and role entry of the delegations of its parent (C01_delegated_sites, C01_delegated_site_spec, through "
+            "the functional specification of the recursive loader). Signature lists of all 8 kinds at depth 1 and 2 in "
+            "the correspondence runs.",
             NOTE + MODELLED, "5/C01"),
     "C02": ("Coq proof of the chain/stop/forward-only properties of the root walk by induction on the walk; differential "
             "correspondence over chains with every kind of broken hop",
@@ -50,8 +52,9 @@ CHECKS = {
             "length bound; differential correspondence over all cross-combinations of three repository states",
             CLIENT + "Theorems: snapshot and targets of a successful cycle have exactly the listed version, the listed digest when "
             "listed, a length within the listed length or configured limit, and were requested under the version-prefixed name "
-            "under consistent snapshots. Partial: the same facts for delegated roles are checked by correspondence and oracle "
-            "(81 combinations x pins x variants), not yet proved for the recursive loader.", NOTE + MODELLED, "5/C05"),
+            "under consistent snapshots; every delegated role loaded, at any depth, is listed in the snapshot, has the listed "
+            "version, the listed digest when listed, and a length within the listed length or configured limit "
+            "(C05_delegated_pinned). Correspondence and oracle over 81 combinations x pins x variants.", NOTE + MODELLED, "5/C05"),
     "C06": ("Coq proofs about max_size_adapter/DigestAdapter/consumer as list transformers, for all streams; end-to-end "
             "correspondence through Repository::read_target",
             "Theorems for every stream (every chunking, every prefix of an endless stream): a stream that ends without error "
